@@ -6,6 +6,7 @@ import (
 	"fmt"
 	"strings"
 	"testing"
+	"time"
 
 	"pgregory.net/rapid"
 
@@ -31,6 +32,12 @@ func checkC08Sched(c c08SchedCase) error {
 		// believed only when it repeats
 		for i := 0; i < 2 && res.Deadlock; i++ {
 			res = sched.Run(c.Schedule, false, func() { err = checkC08(c.C08) })
+		}
+		if res.Deadlock {
+			// on a busy machine six seconds prove nothing: once more with two minutes
+			sched.Patience(2*time.Minute, func() {
+				res = sched.Run(c.Schedule, false, func() { err = checkC08(c.C08) })
+			})
 		}
 		if res.Deadlock {
 			return fmt.Errorf("under schedule %v the parse of %q never returns (deadlock)", c.Schedule, c.C08.Src)
